@@ -130,12 +130,20 @@ impl<I: RecvmsgSyscall> RecvmsgSyscall for NioRecvmsgSyscall<I> {
                         if blocking {
                             set_blocking(fd);
                         }
+                        if received > 0 {
+                            // report the bytes moved so far, not the result of the last call
+                            r = received.try_into().expect("received overflow");
+                        }
                         return r;
                     }
                 } else if error_kind != ErrorKind::Interrupted {
                     std::mem::forget(vec);
                     if blocking {
                         set_blocking(fd);
+                    }
+                    if received > 0 {
+                        // report the bytes moved so far, not the result of the last call
+                        r = received.try_into().expect("received overflow");
                     }
                     return r;
                 }
@@ -147,6 +155,10 @@ impl<I: RecvmsgSyscall> RecvmsgSyscall for NioRecvmsgSyscall<I> {
         std::mem::forget(vec);
         if blocking {
             set_blocking(fd);
+        }
+        if received > 0 {
+            // report the bytes moved so far, not the result of the last call
+            r = received.try_into().expect("received overflow");
         }
         r
     }
